@@ -48,7 +48,7 @@ theorem xrefStreamTail_shape (cfg : Cfg) (z : List Nat → List Nat) (perm : Lis
     (es : List Entry) (root info sid pos : Nat) :
     ∃ sect, xrefStreamTail cfg z perm es root info sid pos = sect ++ kStartxref ++ dec pos ++ kEof ∧
       objHeader sid <+: sect := by
-  refine ⟨objHeader sid ++ emitDict (perm (xrefStreamDict es.length root info (widths es)
+  refine ⟨objHeader sid ++ emitDict (perm (xrefStreamDictCfg cfg.compress es.length root info (widths es)
       (xrefStreamData cfg z es).length)) ++ [10] ++ kStream.drop 1 ++ xrefStreamData cfg z es ++ kEndstream ++
       [10] ++ kEndobjNl.drop 1, ?_, ?_⟩
   · simp only [xrefStreamTail, List.append_assoc]
@@ -298,8 +298,9 @@ theorem encodeEntries_head_zero (w : Nat × Nat × Nat) (hw : w.1 = 1) (a g : Na
 theorem zlibHeaderOk_zero (t : List Nat) : zlibHeaderOk (0 :: t) = false := by
   cases t <;> simp [zlibHeaderOk]
 
-/-- WITNESS (a), for EVERY document: with `use_xref_streams` and `compress_streams = false` the
-cross-reference stream dictionary declares `/Filter /FlateDecode` (`create_dictionary`,
+/-- REGRESSION WITNESS (a) — about the dictionary as it was before repair 67304722
+(`xrefStreamDict` under both settings), for EVERY document: with `use_xref_streams` and
+`compress_streams = false` the cross-reference stream dictionary declared `/Filter /FlateDecode` (`create_dictionary`,
 xref_stream_writer.rs:210) while the data is the raw entry table, whose first byte is 0 (type
 of the free entry of object 0) — not a zlib stream (RFC 1950: CM must be 8).  No reader that
 honours /Filter can decode the cross-reference data. -/
@@ -318,6 +319,24 @@ theorem C03_witness_filter_over_raw_xref_data (cfg : Cfg) (hc : cfg.compress = f
   obtain ⟨t, ht⟩ := encodeEntries_head_zero (widths (.free 0 65535 :: tl)) (widths_fst _) 0 65535 tl
   rw [ht]
   exact zlibHeaderOk_zero t
+
+/-- since repair 67304722: without compression NO filter is declared (and the data is the raw entry
+table, which `C03_written_xref_stream_decodes` reads back) -/
+theorem C03_no_filter_when_uncompressed (n root info : Nat) (w : Nat × Nat × Nat) (len : Nat) :
+    ∀ e ∈ xrefStreamDictCfg false n root info w len, e.1 ≠ kFilter := by
+  intro e he
+  simp only [xrefStreamDictCfg, Bool.false_eq_true, if_false, List.mem_filter] at he
+  simpa using he.2
+
+/-- …and nothing else is lost: every other entry of `create_dictionary` + /Length is still there -/
+theorem C03_uncompressed_dict_keeps_rest (n root info : Nat) (w : Nat × Nat × Nat) (len : Nat) :
+    xrefStreamDictCfg false n root info w len =
+      [(kType, kXRefName), (kSize, dec n), (kRoot, refBytes root), (kInfo, refBytes info),
+       (kW, arr3 w.1 w.2.1 w.2.2), (kIndex, arr2 0 n), (kLength, dec len)] := by
+  simp [xrefStreamDictCfg, xrefStreamDict, kType, kSize, kRoot, kInfo, kW, kIndex, kFilter, kLength]
+
+example : (kFilter, kFlate) ∈ xrefStreamDictCfg true 3 1 2 (1, 1, 1) 9 := by
+  simp [xrefStreamDictCfg, xrefStreamDict]
 
 /-- the same defect does not exist when compressing, PROVIDED the compressor emits a zlib stream -/
 theorem C03_xref_filter_ok_partial (cfg : Cfg) (hc : cfg.compress = true) (z : List Nat → List Nat)
@@ -373,7 +392,24 @@ theorem foldl_writeObjectNow_xref_ids (z : List Nat → List Nat) (sts : List Ob
       · exact Or.inl h
     · exact Or.inr ⟨st', List.mem_cons_of_mem _ h1, h2⟩
 
-/-- WITNESS (c), for every document: with `use_object_streams` a compressible object whose number
+/-- since repair 4d9cdfbe the writer reads the EFFECTIVE flag (`object_streams_enabled`): object
+streams never occur together with a classic table, so the hypothesis of witness (c) below
+(`objStreams = true` with `xrefStreams = false`) is unreachable from any user configuration -/
+theorem C03_effective_objstm_implies_xref_stream (user : Cfg) :
+    (Cfg.effective user).objStreams = true → (Cfg.effective user).xrefStreams = true := by
+  cases user with
+  | mk x o c => cases x <;> cases o <;> simp [Cfg.effective]
+
+/-- the effective configuration changes nothing else, and nothing at all when xref streams are on -/
+theorem C03_effective_id_with_xref_streams (user : Cfg) (h : user.xrefStreams = true) :
+    Cfg.effective user = user := by
+  cases user with
+  | mk x o c => simp_all [Cfg.effective]
+
+example : Cfg.effective ⟨false, true, true⟩ = ⟨false, false, true⟩ := by decide
+
+/-- REGRESSION WITNESS (c) — about the writer reading the RAW flag, as it did before repair
+4d9cdfbe — for every document: with `use_object_streams` a compressible object whose number
 is not reused by a stream object gets NO recorded position; with a classic table
 (`use_xref_streams = false`) `write_xref` therefore writes a FREE entry for it (or none at
 all): the object, although referenced (catalog, page tree, pages, info … are all compressible),
